@@ -40,7 +40,7 @@ def call(med, radio, fn, *a):
         settle(med)
 
 
-def o1_cosim(ctx, joiners, relay, relay_addr=0o1, releaser="last"):
+def o1_cosim(ctx, joiners, relay, relay_addr=0o1, releaser="last", late=0, hold=1):
     from circuitpython_nrf24l01.rf24_mesh import RF24Mesh, RF24MeshNoMaster
     clock = fresh_env(ctx, tick_ns=2_000_000)
     clock.max_looks = 60000
@@ -81,6 +81,8 @@ def o1_cosim(ctx, joiners, relay, relay_addr=0o1, releaser="last"):
         pre += [[fresh_id("ghost%d" % i), i] for i in (1, 2, 3, 4, 5) if i not in taken]
     master.dhcp_dict = SymDict(pre) if ctx.symbolic else dict((k, a) for k, a in pre)
     med.attach_node(rm, master.update)
+    if late:  # timing jitter: the master, the relay and the joined nodes may run late, symbolically (the first `late` occasions)
+        symbolic_schedule(ctx, med, late, hold=hold)
     for j in range(joiners):
         k = fresh_id("id%d" % j)
         rj = med.add(SimRadio(clock, "joiner%d" % j))
@@ -341,6 +343,10 @@ def jobs(tier):
         out.append(Job("O1-co-simulation-through-relay", o1_cosim, dict(joiners=j, relay=True), cost=200 * j))
     for ra in ((0o444,) if tier == "quick" else (0o444, 0o44, 0o21)):
         out.append(Job("O1-co-simulation-through-deep-relay", o1_cosim, dict(joiners=1, relay=True, relay_addr=ra), cost=300))
+    for j, relay, late, hold in (((2, False, 5, 1), (2, False, 4, 8), (1, True, 4, 1)) if tier == "quick" else
+                                 ((2, False, 7, 1), (2, False, 6, 8), (3, False, 6, 4), (1, True, 6, 1), (1, True, 6, 8), (2, True, 5, 4))):
+        out.append(Job("O1-co-simulation-symbolic-schedule", o1_cosim, dict(joiners=j, relay=relay, late=late, hold=hold),
+                       cost=400, shards=4))
     for tmo in ((300, 700) if tier == "quick" else (300, 700, 1500)):
         out.append(Job("O3-join-under-packet-loss", o3_lossy_join, dict(timeout_ms=tmo), cost=300, shards=8, max_paths=60000))
     for op in ("release", "check_connection"):
